@@ -160,7 +160,7 @@ def _cmp_key(test, pol, rf):
     return (k1, rel)
 
 
-def compare(fn_node, ref_node, names=None, table=None, init_ok=(), skip_under=(), strict_guards=False):
+def compare(fn_node, ref_node, names=None, table=None, init_ok=(), skip_under=(), strict_guards=False, unknown_calls=()):
     """Compare the definitions of `fn_node` with those of the reference `ref_node`.
 
     Returns a dict: `mismatch` (definite deviations: [(name, text, lineno)]), `unsure` (guards over other operands,
@@ -227,6 +227,10 @@ def compare(fn_node, ref_node, names=None, table=None, init_ok=(), skip_under=()
     # the quantity at hand, the same number of definitions.  A restructured computation (other state variables, early
     # returns instead of one result variable) is not comparable definition by definition: reported as unsure.
     restructured = any(len(R.defs[n]) > 1 and n not in F.defs for n in wanted)
+    # part of the computation lives in a helper the reference does not know (and that could not be put back)
+    called = {(c.func.attr if isinstance(c.func, ast.Attribute) else getattr(c.func, "id", None)) for c in ast.walk(fn) if isinstance(c, ast.Call)}
+    if called & set(unknown_calls):
+        restructured = True
     foreign_hit = set()
     gated = []
     n_before = None
